@@ -43,7 +43,7 @@ def _member(draw, table, ident):
     prog = draw(progs.programs(table, kinds=("b", "b", "assign", "when", "print"), max_comps=4, depth=1, or_mode=False))
     scan = draw(progs.scans(table))
     nl = draw(st.booleans())
-    seps = st.sampled_from([" ", "\n   ", " ~ note ~ ", "\n ~ a comment, with: punctuation ~\n ", "  "])
+    seps = st.sampled_from([" ", "\n   ", " ~ note ~ ", "\n ~ a comment, with: punctuation ~\n ", "  ", "\n\n   ", "\n   \n"])
 
     def sep():
         return draw(seps)
@@ -79,7 +79,8 @@ def _member(draw, table, ident):
         marker = True
     path = f"$[{scan}][{' ' if not nl else chr(10) + '  '}{body}{' ' if not nl else chr(10)}]"
     after = draw(st.integers(0, 4)) == 0 and outer != ""
-    text = (path + "\n" + outer) if after else ((outer + ("\n" if nl else " ")) if outer else "") + path
+    gap = draw(st.sampled_from(["\n", "\n", " ", "\n\n", "\n  \n"])) if nl else " "
+    text = (path + gap + outer) if after else ((outer + gap) if outer else "") + path
     return {"text": text, "identity": ident, "outer": outer != "", "inner": inner, "marker": marker}
 
 
